@@ -119,7 +119,23 @@ def agg_cases(ctx, rng, n, scratch, settings):
   import carbon.aggregator.rules as arules
   rm = arules.RuleManager
   recs = []
+  import cachetools
+  ticks = [0]
+
+  def ticking():
+    ticks[0] += 1       # every look at the cache's clock takes one unit: an entry may expire between two reads
+    return ticks[0]
+
+  class TickingTTLCache(cachetools.TTLCache):
+    def __init__(self, size, ttl):
+      cachetools.TTLCache.__init__(self, size, ttl, timer=ticking)
+  orig_ttl = arules.TTLCache
   for k in range(n):
+    # the rules' metric-name cache: off, a tiny LRU (evictions), or a TTL cache whose entries expire between reads
+    mode = ('off', 'lru', 'ttl', 'off')[k % 4]
+    settings['CACHE_METRIC_NAMES_MAX'] = {'off': 0, 'lru': 2, 'ttl': 50}[mode]
+    settings['CACHE_METRIC_NAMES_TTL'] = {'off': 0, 'lru': 0, 'ttl': rng.choice([1, 2, 3, 5])}[mode]
+    arules.TTLCache = TickingTTLCache if mode == 'ttl' else orig_ttl
     path = os.path.join(scratch, 'aggregation-rules-%d.conf' % k)
     rules, lines = write_rules(rng, path)
     s2 = dict(settings)
@@ -154,9 +170,14 @@ def agg_cases(ctx, rng, n, scratch, settings):
       router.addDestination(d)
       ref_router.addDestination(d)
     didx = {d: i + 1 for i, d in enumerate(dests)}
-    for _ in range(4):
-      pat = rng.choice(rules)['pat'] if rules and rng.random() < 0.8 else aggsys.gen_rule(rng)[0]
-      name = aggsys.gen_name(rng, pat)
+    asked = []
+    for q in range(6):
+      if q >= 3 and rng.random() < 0.7:
+        name = rng.choice(asked)        # asked again: the answer now comes out of the name cache
+      else:
+        pat = rng.choice(rules)['pat'] if rules and rng.random() < 0.8 else aggsys.gen_rule(rng)[0]
+        name = aggsys.gen_name(rng, pat)
+      asked.append(name)
       obs = sorted(set(didx[d] for d in router.getDestinations(name)))
       # hash destinations (the consistent-hashing router itself is C05/C06) of every candidate key: the name and
       # whatever aggregate names the rule manager's current rules give
@@ -169,7 +190,10 @@ def agg_cases(ctx, rng, n, scratch, settings):
       for cnd in sorted(cands):
         hashd.append([[aggsys.enc(seg) for seg in cnd.split('.')], sorted(set(didx[d] for d in ref_router.getDestinations(cnd)))])
       recs.append(dict(kind='agg', rules=rules, name=[aggsys.enc(seg) for seg in name.split('.')], obs=obs, hashd=hashd,
-                       text=dict(rules=lines, name=name, reloaded=reloaded)))
+                       text=dict(rules=lines, name=name, reloaded=reloaded, name_cache=mode)))
+  arules.TTLCache = orig_ttl
+  settings['CACHE_METRIC_NAMES_MAX'] = 0
+  settings['CACHE_METRIC_NAMES_TTL'] = 0
   return recs
 
 
